@@ -427,6 +427,10 @@ bool vm_ffi_call(const NvmModule *module, uint32_t import_idx,
 #include <signal.h>
 #include <sys/wait.h>
 
+/* program arguments of the hosting executable (defined next to each main(), used by runtime/cli.c) */
+extern int g_argc;
+extern char **g_argv;
+
 bool vm_ffi_cop_start(VmState *vm, const NvmModule *module) {
     if (vm->cop_pid > 0) return true;  /* Already running */
 
@@ -461,8 +465,17 @@ bool vm_ffi_cop_start(VmState *vm, const NvmModule *module) {
         close(pipe_to_child[0]);
         close(pipe_from_child[1]);
 
-        execlp("nano_cop", "nano_cop", (char *)NULL);
-        execl("bin/nano_cop", "nano_cop", (char *)NULL);
+        /* The program's own arguments travel with the co-process so that get_argc/get_argv
+         * answer there what they answer in-process. */
+        char *cop_argv[66];
+        int cop_argc = 0;
+        cop_argv[cop_argc++] = "nano_cop";
+        for (int i = 0; i < g_argc && g_argv && cop_argc < 65; i++) {
+            cop_argv[cop_argc++] = g_argv[i];
+        }
+        cop_argv[cop_argc] = NULL;
+        execvp("nano_cop", cop_argv);
+        execv("bin/nano_cop", cop_argv);
         _exit(127);
     }
 
